@@ -268,6 +268,21 @@ fn signature_cases(out: &mut Vec<Case>) {
             out.push(Case { text: format!("def ff({}){} {{ }}", ps.join(", "), rsp), tag: format!("def/{}/{}", np, ret), expect, bad_width: None, gates: Some(vec![]), def_ret: Some(("ff".into(), rty)), nontrivial: true });
         }
     }
+    // designators of parameter and return types given by a const identifier, also when a
+    // parameter of the subroutine has that very name (the signature is resolved outside it)
+    for w in [4u32, 8, 16] {
+        for ret in ["intw", "uintw", "bitw", "floatw", "anglew"] {
+            let (rsp, rty) = spell(ret, w, false);
+            let rsp = rsp.replace(&format!("[{}]", w), "[n]");
+            let sig = Type::SubroutineDef(SubroutineDef { num_params: 1, return_type: Box::new(rty.clone()) });
+            for (ptag, param, pty) in [("int", "int n", Type::Int(None, IsConst::False)), ("qubit", "qubit n", Type::Qubit), ("other", "int m", Type::Int(None, IsConst::False)), ("widthparam", "int[n] n", Type::Int(Some(w), IsConst::False)), ("bitparam", "bit[n] n", Type::BitArray(ArrayDims::D1(w as usize), IsConst::False))] {
+                let pname = if ptag == "other" { "m" } else { "n" };
+                let _ = pname;
+                out.push(Case { text: format!("const int n = {}; def ff({}) -> {} {{ }}", w, param, rsp), tag: format!("def-const-designator/{}/{}", ptag, ret), expect: vec![("ff".into(), sig.clone())], bad_width: None, gates: Some(vec![]), def_ret: Some(("ff".into(), rty.clone())), nontrivial: true });
+                let _ = pty;
+            }
+        }
+    }
     // qubit parameters and registers
     for w in [1u32, 2, 5, 1024] {
         out.push(Case { text: format!("qubit[{}] x; qubit y;", w), tag: "qubitreg".into(), expect: vec![("x".into(), Type::QubitArray(ArrayDims::D1(w as usize))), ("y".into(), Type::Qubit)], bad_width: None, gates: None, def_ret: None, nontrivial: true });
